@@ -1,0 +1,5 @@
+//go:build !verif
+
+package simplefixgo
+
+func verifTrace(string, interface{}, []byte) {}
